@@ -82,7 +82,7 @@ func scenarioPublishDuringLastMergeDelete(c *hx.Ctx, idx int) error {
 	p.setGate(actMerge, true)
 	mergeDone := make(chan string, 1)
 	go func() { mergeDone <- hx.Safe(func() { sh.MergeOutOfOrder(false, true) }) }()
-	ev, finished, perr, timedOut := waitEvent(p, mergeDone, 20*time.Second)
+	ev, _, finished, perr, timedOut := waitEvent(p, mergeDone, 20*time.Second, "")
 	if timedOut {
 		return fmt.Errorf("directed: merge neither paused nor finished")
 	}
